@@ -161,6 +161,8 @@ type Query struct {
 	Invoke func(ssa.Instruction) []*ssa.Function
 	// SkipCall: do not look into these calls (e.g. go statements).
 	SkipGo   bool
+	// Skip: callees not to look into (e.g. recursion back into the function under analysis).
+	Skip func(*ssa.Function) bool
 	MaxDepth int
 	may      map[string]int
 	must     map[string]int
@@ -183,7 +185,7 @@ func (q *Query) callees(in ssa.Instruction, env Env) []*ssa.Function {
 	}
 	var out []*ssa.Function
 	for _, c := range cs {
-		if c != nil && c.Blocks != nil {
+		if c != nil && c.Blocks != nil && (q.Skip == nil || !q.Skip(c)) {
 			out = append(out, c)
 		}
 	}
